@@ -91,8 +91,7 @@ def run(K, scratch):
 
     # ---- 3
     import families as FAM
-    fam = copy.deepcopy(FAM.FAMILIES["dry"])
-    fam.update(FAM.TIER_OVERRIDES.get(("dry", "quick"), {}))
+    fam = FAM.resolve("dry", "quick")
     fam["PropIds"], fam["EmitRate"] = [], 0
     counts = {}
     for mode in ("view", "t5", "t6"):
